@@ -585,9 +585,21 @@ pub fn e2e(env: &Env, src: &mut Src<'_>) -> CaseResult {
         let bit_in = src.idx(plan.n);
         let byte = el * elem_bytes + bit_in / 8;
         let t = Tamper { key: key.clone(), ordinal, edit: Edit::BitFlip { byte, bit: (bit_in % 8) as u8 } };
-        let fj = json!({"kind": "transmitted", "from": p, "gate": key.gate, "ordinal": ordinal, "byte": byte, "bit": bit_in % 8});
-        labels.push("fault:transmitted".into());
-        (fj, run_plan(&plan, &None, Some(t)), p)
+        // a prover that lies consistently: it also records one of its own PRSS masks with the
+        // same bit flipped, so that its own view explains the product share it sent (the
+        // verifiers derive that mask themselves and must still reject)
+        let consistent = src.below(3) == 0;
+        let own = if consistent {
+            let record = chunks[..ordinal].iter().sum::<usize>() / elem_bytes + el;
+            let step = key.gate.rsplit("mulstep").next().and_then(|d| d.parse::<usize>().ok()).unwrap_or(0);
+            Some(RecFault { helper: p, record: record.min(plan.m - 1), step: step.min(plan.steps - 1), entry: 4 + src.idx(2), bit: bit_in })
+        } else {
+            None
+        };
+        let fj = json!({"kind": if consistent { "transmitted+own-record" } else { "transmitted" }, "from": p, "gate": key.gate, "ordinal": ordinal, "byte": byte, "bit": bit_in % 8,
+                        "own_record": own.as_ref().map(|f| json!({"record": f.record, "step": f.step, "entry": ENTRY_NAMES[f.entry], "bit": f.bit}))});
+        labels.push(if consistent { "fault:transmitted+own-record".into() } else { "fault:transmitted".into() });
+        (fj, run_plan(&plan, &own, Some(t)), p)
     } else {
         let f = RecFault { helper: src.idx(3), record: src.idx(plan.m), step: src.idx(plan.steps), entry: src.idx(7), bit: src.idx(plan.n) };
         let fj = json!({"kind": "recorded", "helper": f.helper, "record": f.record, "step": f.step, "entry": ENTRY_NAMES[f.entry], "bit": f.bit});
@@ -603,7 +615,7 @@ pub fn e2e(env: &Env, src: &mut Src<'_>) -> CaseResult {
     if rejected.is_empty() {
         let all_ok = out.results.iter().all(Result::is_ok);
         let what = if all_ok { "accepted by all three helpers".to_string() } else { format!("not rejected by the proof check: {:?}", out.results) };
-        let kind = if transmitted { "transmitted".to_string() } else { format!("recorded:{}", fj["entry"].as_str().unwrap_or("")) };
+        let kind = if transmitted { fj["kind"].as_str().unwrap_or("transmitted").to_string() } else { format!("recorded:{}", fj["entry"].as_str().unwrap_or("")) };
         if all_ok || !out.timed_out {
             return Err(violation(format!("altered-batch-accepted:{kind}"), format!("batch with one flipped {kind} bit was {what}"), cj));
         }
@@ -698,7 +710,7 @@ pub fn subs(_env: &Env) -> Vec<Sub> {
         Sub::random("three_party_consistency", 300, 3000, 100_000, three_party_consistency,
             "dense generated three-party views of 256 multiplications (all-zero / all-one / random shares and masks): conversions equal the per-bit reference; prover indices equal the left verifier's u and the right verifier's v and every position sums to -1/2; after flipping one generated (helper, entry, position) bit some table relation fails at exactly that position; distinct by the flipped (helper, entry, position)"),
         Sub::random("e2e", 40, 3000, 60_000, e2e,
-            "TestWorld malicious contexts, Boolean vectors of width {1,3,5,8,16,20,32,64,256}, 1-3 steps per batch, record counts chosen so the bit-multiplication count hits 1, 255/256/257, 2^k, 2^k+-1, 32*8^j(+1), the recursion thresholds 3*4^k (+1, +256, +257) for k=4..6, >8192 (TARGET_PROOF_SIZE=8192 in test builds) or random; single-shot validate() or validate_record via validated_seq_join with 2^0..2^7 records per batch. Honest run must be accepted by all helpers with the right product; then one fault - a flipped bit of one transmitted z message (interceptor) or of one recorded intermediate (x/y/prss/z entry pushed with a flipped bit) - must make at least one helper return DZKPValidationFailed/ParallelDZKPValidationFailed; non-trivial = fault applied inside the populated part")
+            "TestWorld malicious contexts, Boolean vectors of width {1,3,5,8,16,20,32,64,256}, 1-3 steps per batch, record counts chosen so the bit-multiplication count hits 1, 255/256/257, 2^k, 2^k+-1, 32*8^j(+1), the recursion thresholds 3*4^k (+1, +256, +257) for k=4..6, >8192 (TARGET_PROOF_SIZE=8192 in test builds) or random; single-shot validate() or validate_record via validated_seq_join with 2^0..2^7 records per batch. Honest run must be accepted by all helpers with the right product; then one fault - a flipped bit of one transmitted z message (interceptor), optionally together with the same bit of the sender's own recorded PRSS mask (a prover whose own view explains its lie), or a flipped bit of one recorded intermediate (x/y/prss/z entry pushed with a flipped bit) - must make at least one helper return DZKPValidationFailed/ParallelDZKPValidationFailed; non-trivial = fault applied inside the populated part")
         .shrink_iters(12),
         Sub::exhaustive("deep", 20, 100, deep,
             "single-shot batches of width-256 multiplications at and one block above the recursion thresholds 3*4^k, k=7..11 (49,152 .. 12,583,168 bit multiplications; 10..14 proofs, 14 = MAX_PROOF_RECURSION, the depth production batches use): even cases are honest (accepted, right product), odd cases record one intermediate with one flipped bit (last record, first record, or a derived position) and must be rejected by some helper")
